@@ -119,13 +119,13 @@ Record pre_remote (n : nat) (s : st) : Prop := {
   pr_pend : pend_remote s = None;
   pr_na : neg_audio s = None;
   pr_nv : neg_video s = None;
-  pr_sig : sig s <> HaveRemoteOffer;
+  pr_sig : sig s = Stable \/ sig s = HaveLocalOffer;
   pr_shape : exists k m, shape k m (trs s) /\ gmid s = (Z.of_nat k - 1)%Z /\ (k + m <= n)%nat }.
 
 Definition no_remote (o : op) : Prop := match o with SetRemote _ _ => False | _ => True end.
 
 Lemma pre_remote_init : pre_remote 0 init.
-Proof. constructor; try reflexivity; [discriminate|]. exists 0%nat, 0%nat. split; [reflexivity|split; [reflexivity|lia]]. Qed.
+Proof. constructor; try reflexivity; [left; reflexivity|]. exists 0%nat, 0%nat. split; [reflexivity|split; [reflexivity|lia]]. Qed.
 
 Lemma pre_remote_mono n n' s : (n <= n')%nat -> pre_remote n s -> pre_remote n' s.
 Proof.
@@ -165,6 +165,20 @@ Proof.
       unfold shape in *. cbn [trs set_trs]. rewrite map_app, Hsh. cbn [map]. rewrite Hx, <- app_assoc, repeat_snoc. reflexivity. }
     destruct d; cbn [fst]; try (apply Hadd; reflexivity).
     apply (pre_remote_mono n); [lia|exact Hpre].
+  - (* AddTrack *)
+    unfold add_track. destruct (reuse_for_track k0 (trs s)) as [l|] eqn:E; cbn [fst].
+    + constructor; auto. exists k, m. split; [|split; [exact Hg|lia]].
+      unfold shape in *. cbn [trs set_trs]. rewrite <- Hsh. eapply reuse_for_track_mids. exact E.
+    + constructor; auto. exists k, (S m). split; [|split; [exact Hg|lia]].
+      unfold shape in *. cbn [trs set_trs]. rewrite map_app, Hsh. cbn [map new_local_tr t_mid].
+      rewrite <- app_assoc, repeat_snoc. reflexivity.
+  - (* RemoveTrack *)
+    unfold remove_track. destruct (nth_error (trs s) i) as [t|]; [|apply (pre_remote_mono n); [lia|exact Hpre]].
+    destruct (t_sender t); [|apply (pre_remote_mono n); [lia|exact Hpre]]. cbn [fst].
+    constructor; auto. exists k, m. split; [|split; [exact Hg|lia]].
+    unfold shape in *. cbn [trs set_trs]. rewrite <- Hsh.
+    destruct (upd_nth i detach_track (trs s)) as [l|] eqn:E; [|reflexivity].
+    eapply upd_nth_mids; [|exact E]. apply detach_track_mid.
   - (* StopTransceiver *)
     unfold stop_transceiver. destruct (upd_nth i stop_tr (trs s)) as [l|] eqn:E; cbn [fst];
       [|apply (pre_remote_mono n); [lia|exact Hpre]].
@@ -186,10 +200,10 @@ Proof.
   - (* CreateAnswer *)
     unfold create_answer, remote_desc. rewrite Hp, Hc. cbn [fst]. apply (pre_remote_mono n); [lia|exact Hpre].
   - (* SetLocal *)
-    unfold set_local. destruct ty.
-    + destruct (sig s) eqn:Es; cbn [fst]; try (apply (pre_remote_mono n); [lia|exact Hpre]).
-      constructor; auto; [discriminate|]. exists k, m. split; [exact Hsh|split; [exact Hg|lia]].
-    + destruct (sig s) eqn:Es; cbn [fst]; try (apply (pre_remote_mono n); [lia|exact Hpre]). contradiction.
+    unfold set_local.
+    destruct Hsig as [Es|Es]; rewrite Es; destruct ty; cbn [local_next fst];
+      try (apply (pre_remote_mono n); [lia|exact Hpre]).
+    constructor; cbn; auto. exists k, m. split; [exact Hsh|split; [exact Hg|lia]].
 Qed.
 
 Lemma set_mids_shape k m l : shape k m l -> set_mids l = numerals 0 k.
@@ -283,6 +297,8 @@ Proof.
   destruct (trace_pre ops init 0 pre_remote_init Hno' Hmax _ _ _ _ Hin) as (n & Hn & Hp & Hs).
   destruct o; cbn [step] in Hs.
   - destruct (add_transceiver s k d); discriminate.
+  - destruct (add_track s k); discriminate.
+  - destruct (remove_track s i); discriminate.
   - destruct (stop_transceiver s i); discriminate.
   - destruct (create_data_channel s); discriminate.
   - destruct (create_offer s) as [s1 r1] eqn:E. injection Hs as -> ->.
